@@ -203,6 +203,10 @@ PROPS = {
                 "maps, floats, lambdas and named functions; the lines a complete save writes are measured by one undisturbed reference run per state. "
                 "quick: the 50-binding states only against each other and 'no file', every 4th binding point; thorough: everything. Observed: exit kind, "
                 "bytes of .gr, bytes of the left-over temp file, and whether a fresh process auto-loading .gr dumps exactly those bytes. "
+                "HISTORIES (54 quick cases; harness/cmd/harness/autosave_hist.go): the interrupted save is not the first thing the process does - (S) one process evaluates a "
+                "first program, auto-saves undisturbed, evaluates a second program (new bindings, an updated and a deleted old one, or nothing) and is killed / fails in its "
+                "SECOND AutoSave; (L) what a session does: AutoLoad of the old file, a program, AutoSave; same crash points (hook hit counts translated past the first save) and "
+                "write failures. "
                 "non-trivial = the new state differs from the last save (the save is not skipped).",
         "trusted_base": COMMON_TB + [
             "modelled: repl.AutoSave (skip test, CreateTemp, SaveGlobals as one write per binding, Rename, error returns), abstract file system name -> bytes",
